@@ -47,6 +47,13 @@ TEXT["C13"] = ("Lean theorems: '#' lines never reach the section state machine a
 TEXT["C19"] = ("Lean theorems: a rejected change name is reported at the byte that is the offending character of that header line; junk where a header is expected at column 1 of its line; the metavariable scratch buffer is the patch lines byte for byte (offset mapping). Tie: section.Split, parse.Parse, engine.Compile and patch.Parse on multi-change patches with one injected fault vs the Lean model (Sec.split, parseMeta over go/scanner's tokens, compileMetaErrs, mapPos) and vs the injection point; CLI exit/stderr/no rewrite.",
          "6 C19", "Lean 4 proof over section/meta model + differential front stream with injected faults")
 
+TEXT["C09"] = ("Lean theorems: running a ++ b is running a then b on a's result (sequential composition), a non-matching change is a no-op, a failing step is reported; -p before -P in the order given. Tie: per-change decisions of the real engine vs the model on chains where change k+1 matches only the output of change k; through the CLI the combined run equals the chain of single-change runs (canonical trees, redundant parentheses removed) for every way of supplying the patches. Known finding F7 (patterns that depend on redundant parentheses) is reported as KNOWN-FINDING. Partial: the print/re-parse step between runs is external.",
+         "6 C09", "Lean 4 proof (sequential composition of changes) + differential decisions + CLI combined-vs-chain metamorphic check")
+TEXT["C10"] = ("Lean theorems: package guard, import table rows (unnamed / literal name incl. dot and blank / identifier-metavariable name), any import of the path may satisfy the guard, all listed imports required, failed guard = no-op. Tie: exhaustive cross product of patch-side x file-side import forms x package clause x layout against the README table, the real engine and the model.",
+         "6 C10", "Lean 4 proof over import/package guard model + exhaustive cross-product tie")
+TEXT["C11"] = ("Lean theorems over the import list: adding never removes, adds only the requested path; the clean-up deletes only imports of matched paths, keeps a matched import that is still referred to and not replaced by name, deletes one that is no longer referred to; unrelated imports survive. Tie: import multiset of the real engine vs the model on generated patches that add/delete/rename/match imports. astutil.AddNamedImport/DeleteNamedImport and imports.Process are assumed to have set semantics (validated differentially).",
+         "6 C11", "Lean 4 proof over import-list model + differential import-multiset tie")
+
 REASONS = {}
 
 def main():
